@@ -174,6 +174,80 @@ fn collect_body<const MX: usize, const R: usize, const L: usize, const BLOCK: us
     core::mem::forget(scanner);
 }
 
+/// C02 on blocks of several rows at an affordable size: the sequence is a concrete
+/// background symbol except at the given positions (symbolic), and the threshold is
+/// concrete, so that only the windows touching a symbolic symbol are symbolic
+/// candidates. Everything else (oracle, exhaustion) is as in `collect_body`.
+fn collect_sparse_body<const MX: usize, const R: usize, const L: usize, const BLOCK: usize, const K: usize>(
+    arm: Dispatch,
+    t: f32,
+    background: u8,
+    spots: &[usize],
+) {
+    set_verif_override(Some(arm));
+    let (pssm, rows) = matrix(MX);
+    let m = rows.len();
+    let mut mat = DenseMatrix::<Nucleotide, U32>::new(R);
+    let mut lin = [Nucleotide::N; MAXL];
+    for c in 0..32 {
+        for r in 0..R {
+            let i = c * R + r;
+            let mut s = if i < L { crate::refs::nuc(background) } else { Nucleotide::N };
+            for &p in spots.iter() {
+                if p == i && i < L {
+                    s = crate::refs::nuc(nd::u8_in(0, 4));
+                }
+            }
+            mat[r][c] = s;
+            lin[i] = s;
+        }
+    }
+    let mut st = StripedSequence::<Dna, U32>::verif_new_unchecked(mat, L);
+    st.configure(&pssm);
+    let n = if L >= m { L + 1 - m } else { 0 };
+    let mut count = 0usize;
+    for c in 0..32 {
+        for r in 0..R {
+            let i = c * R + r;
+            if i < n && ref_score(rows, &lin, i) >= t {
+                count += 1;
+            }
+        }
+    }
+    nd::assume(count <= K);
+    assume_few_candidates::<R>(&pssm, &lin, t);
+    let mut scanner = Scanner::new(&pssm, &st);
+    scanner.threshold(t);
+    scanner.block_size(BLOCK);
+    let mut got = [usize::MAX; 4];
+    let mut returned = 0usize;
+    let mut exhausted = false;
+    for k in 0..K + 1 {
+        match scanner.next() {
+            None => {
+                exhausted = true;
+                break;
+            }
+            Some(hit) => {
+                let p = hit.position();
+                assert!(p < n, "hit outside [0, L-M]");
+                let want = ref_score(rows, &lin, p);
+                assert!(hit.score() == want, "hit carries a wrong score");
+                assert!(want >= t, "hit below the threshold");
+                for q in 0..k {
+                    assert!(got[q] != p, "position yielded twice");
+                }
+                got[k] = p;
+                returned += 1;
+            }
+        }
+    }
+    assert!(exhausted, "scanner yields more hits than qualifying positions");
+    assert!(returned == count, "a qualifying position was not yielded");
+    crate::witness!(count == K && (got[0] % R == R - 1 || got[1] % R == R - 1), "K hits, one in the last row of a block");
+    core::mem::forget(scanner);
+}
+
 /// C03: `PRE` calls of next(), then max().
 fn max_body<const MX: usize, const R: usize, const L: usize, const BLOCK: usize, const PRE: usize>(arm: Dispatch) {
     set_verif_override(Some(arm));
@@ -258,6 +332,11 @@ harness!(avx2vec, 34, c02_m4_r1_l16_b256_avx2, collect_body::<4, 1, 16, 256, 2>(
 harness!(avx2vec, 66, c02_m5_r2_l33_b3_generic, collect_body::<5, 2, 33, 3, 2>(Dispatch::Generic));
 //@ C02 thorough 10800 scanner to exhaustion: matrix 0 (M=2), R=1, L=2 (= M), AVX2 arm | mem=8 | unwindset=scan::Scanner<.*Iterator>::next#0:6
 harness!(avx2vec, 34, c02_m0_r1_l2_b256_avx2, collect_body::<0, 1, 2, 256, 2>(Dispatch::Avx2));
+
+//@ C02 quick 3600 scanner to exhaustion, blocks of 2 rows: matrix 0 (M=2), R=2, L=63, block 2, AVX2 arm, threshold -1, background T, symbolic symbols at 1, 3, 61, 62 (the cell past the last position sits in row 0, hits in row 1) | mem=12 | unwindset=scan::Scanner<.*Iterator>::next#0:6
+harness!(avx2vec, 66, c02_sparse_m0_r2_l63_b2_avx2, collect_sparse_body::<0, 2, 63, 2, 2>(Dispatch::Avx2, -1.0, 2, &[1, 3, 61, 62]));
+//@ C02 thorough 10800 scanner to exhaustion, blocks of 3 rows: matrix 2 (M=3), R=3, L=94, block 3, generic arm, threshold 1.5, background A, symbolic symbols at 4, 5, 91, 92, 93 | mem=12 | unwindset=scan::Scanner<.*Iterator>::next#0:6
+harness!(avx2vec, 98, c02_sparse_m2_r3_l94_b3_generic, collect_sparse_body::<2, 3, 94, 3, 2>(Dispatch::Generic, 1.5, 0, &[4, 5, 91, 92, 93]));
 
 // --- C03 -------------------------------------------------------------------------------
 //@ C03 quick 3600 scanner max(): matrix 0 (M=2), R=1, L=32, default block, AVX2 arm, no prior next() | mem=22 | unwindset=scan::Scanner<.*Iterator>::next#0:6;scan::Scanner<.*Iterator>::max#0:6
